@@ -10,13 +10,20 @@
    Each matcher m decides after d[m] bytes of this input. The design is sound iff every matcher is
    prefix-monotone (a verdict other than "again" never changes when bytes are appended); the input assumption
    is that exactly one matcher - the one of the true protocol - finally succeeds.
-   Defects: "EarlyFail" = the true protocol's matcher answers "fail" on a prefix that is too short to decide. *)
-EXTENDS Integers, FiniteSets, TLC
+   The listener's protocol configuration is a dimension: `scope` is the ORDERED list the selection loops over
+   (an explicit list "a,b,c" of the proxy config; Auto = all registered protocols in map order, i.e. any order).
+   What the code promises for one call: the first listed matcher that answers "ok" wins; otherwise AGAIN if ANY
+   listed matcher answered "again" (one matcher saying "fail" does not end the wait while another still needs
+   bytes); FAILED only when every listed matcher said "fail". Under the input assumption this answer does not
+   depend on the order of the list and is prefix monotone.
+   Defects: "EarlyFail" = the true protocol's matcher answers "fail" on a prefix that is too short to decide;
+            "LastVerdictWins" = the need-more flag is overwritten by each listed matcher instead of accumulated. *)
+EXTENDS Integers, Sequences, FiniteSets, TLC, Json
 
 CONSTANTS Protos, N, Defects
 
-VARIABLES truth, d, fed, chosen
-vars == <<truth, d, fed, chosen>>
+VARIABLES truth, d, fed, chosen, scope
+vars == <<truth, d, fed, chosen, scope>>
 
 Verdict(m, n) == IF n < d[m]
                  THEN (IF "EarlyFail" \in Defects /\ m = truth /\ n > 0 THEN "fail" ELSE "again")
@@ -27,14 +34,28 @@ SelectSetOf(v) == LET oks == { m \in DOMAIN v : v[m] = "ok" } IN
                   IF oks # {} THEN oks
                   ELSE IF \E m \in DOMAIN v : v[m] = "again" THEN {"again"} ELSE {"fail"}
 
+(* the loop of SelectStreamFactoryProtocol over the configured list *)
+RECURSIVE Loop(_, _, _, _)
+Loop(v, seq, i, again) ==
+  IF i > Len(seq) THEN (IF again THEN "again" ELSE "fail")
+  ELSE IF v[seq[i]] = "ok" THEN seq[i]
+  ELSE Loop(v, seq, i + 1, IF "LastVerdictWins" \in Defects THEN v[seq[i]] = "again"
+                                                              ELSE again \/ v[seq[i]] = "again")
+SelectList(v, seq) == Loop(v, seq, 1, FALSE)
+
+ToSet(s) == { s[i] : i \in 1..Len(s) }
+Lists == { s \in UNION { [1..n -> Protos] : n \in 1..Cardinality(Protos) } :
+             \A i, j \in DOMAIN s : i # j => s[i] # s[j] }
+
 Init == /\ truth \in Protos /\ d \in [Protos -> 1..N]
+        /\ scope \in { s \in Lists : truth \in ToSet(s) }
         /\ fed = 0 /\ chosen = "none"
 
 Feed(k) == /\ chosen = "none" /\ fed + k <= N
            /\ fed' = fed + k
-           /\ \E r \in SelectSetOf([m \in Protos |-> Verdict(m, fed + k)]) :
+           /\ LET r == SelectList([m \in Protos |-> Verdict(m, fed + k)], scope) IN
                 chosen' = IF r = "again" THEN "none" ELSE r
-           /\ UNCHANGED <<truth, d>>
+           /\ UNCHANGED <<truth, d, scope>>
 
 Next == \E k \in 1..N : Feed(k)
 Spec == Init /\ [][Next]_vars
@@ -42,4 +63,10 @@ Spec == Init /\ [][Next]_vars
 OnlyTruth == chosen \in {"none", truth}
 Prompt    == fed >= d[truth] => chosen = truth
 NeverFail == chosen # "fail"
+\* the loop's answer is the order-free rule applied to the listed matchers, for every prefix length
+OrderIndependent == \A n \in 0..N : LET v == [m \in Protos |-> Verdict(m, n)] IN
+                      SelectList(v, scope) \in SelectSetOf([m \in ToSet(scope) |-> v[m]])
+\* one CASE per shape of list: its length and the position of the connection's own protocol
+EmitCase == fed = 0 => PrintT(<<"CASE", ToJson([n |-> Len(scope),
+                                 pos |-> CHOOSE i \in DOMAIN scope : scope[i] = truth])>>)
 ====
